@@ -12,8 +12,9 @@ import tempfile
 sys.path.insert(0, os.environ.get("POLAR_REPO", "/repo"))
 
 
-def rec_goals(text, goals, opts):
-    """the GoalsAction path: normalize, RecBuilder, cli.common.get_moment with one shared solver dict, goals in the given order"""
+def rec_goals(text, goals, opts, sens=None):
+    """the GoalsAction path: normalize, RecBuilder, cli.common.get_moment with one shared solver dict, goals in the given order
+    (sens = parameter name: the SensitivityAction path, DiffRecBuilder instead of RecBuilder)"""
     import sympy as sp
     from argparse import Namespace
     from symengine import sympify as se
@@ -29,7 +30,12 @@ def rec_goals(text, goals, opts):
         for v, t in program.typedefs.items():
             if isinstance(t, Finite):
                 rec["types"][str(v)] = sorted(str(x) for x in t.values)
-        rb = RecBuilder(program)
+        if sens:
+            from recurrences import DiffRecBuilder
+            from symengine import Symbol
+            rb = DiffRecBuilder(program, Symbol(sens))
+        else:
+            rb = RecBuilder(program)
         solvers = {}
         ns = Namespace(solvability_check=False)
         for g in goals:
@@ -152,6 +158,8 @@ def run_step(step):
         # NOTE: a history does not reset the settings between steps unless the step asks for specific options,
         # exactly like successive analyses through the API / CLI in one process
         return rec_goals(step["text"], step["goals"], step.get("opts", {})) if step.get("reset", True) else rec_goals_noreset(step)
+    if k == "sens":
+        return rec_goals(step["text"], step["goals"], step.get("opts", {}), sens=step["param"])
     if k == "invariants":
         return rec_invariants(step["text"], step["goals"], step.get("opts", {}))
     if k == "cli":
